@@ -61,10 +61,16 @@ func (r *Replayer) build(rel string) (string, error) {
 	pdir := filepath.Join(repoDir, rel)
 	n := 0
 	for vp, content := range ov {
+		n++
 		if filepath.Dir(vp) != filepath.Clean(pdir) {
+			// harness files of other packages (helpers the target package's harness calls) are overlaid as well
+			real := filepath.Join(dir, fmt.Sprintf("o%d_%s", n, filepath.Base(vp)))
+			if err := os.WriteFile(real, content, 0o644); err != nil {
+				return "", err
+			}
+			repl[vp] = real
 			continue
 		}
-		n++
 		real := filepath.Join(dir, fmt.Sprintf("f%d_%s", n, filepath.Base(vp)))
 		if err := os.WriteFile(real, content, 0o644); err != nil {
 			return "", err
